@@ -119,6 +119,10 @@ def get_mod_apply_selection_choice(
         removed_nodes |= e.removed_nodes
         added_edges |= e.edges
 
+    # A graph that is infeasible due to a confirmed incompatibility stays infeasible: keep the edges that mark this,
+    # also if the node at the other end is removed (again) by this choice
+    added_edges |= get_confirmed_incompatibility_edges(graph, start_nodes)
+
     return removed_edges, removed_nodes, added_edges
 
 
